@@ -1,4 +1,5 @@
 import HopModel.Model.Glob
+import HopModel.Model.GlobIdx
 import HopModel.Driver.Util
 /-
 Driver for C20 (every line is its own case; byte strings in hex, `-` = empty):
@@ -20,7 +21,8 @@ def parseBlocks (s : String) : Option (List (List (List UInt8))) :=
 
 def step (_ : Unit) : List String → Unit × String
   | ["glob", p, s] => match fromHex p, fromHex s with
-    | some p, some s => ((), if glob p s then "1" else "0")
+    -- the index-level transcription of the code's loop (proved equal to `glob`)
+    | some p, some s => ((), if globIdx p s then "1" else "0")
     | _, _ => ((), "bad-op")
   | ["hosts", h, bl] => match fromHex h, parseBlocks bl with
     | some h, some bl =>
